@@ -75,6 +75,10 @@ EXPLANATION += (
     ' Round 7: both marker workers write an entry for every pair index of their run (R-COVER/every-pair-recorded).'
 )
 
+EXPLANATION += (
+    ' Round 8: all genes enter the Holm correction whatever the gene list (R-ARITH/holm-counts-all-genes); marker files can be written when a direction has no marker and for chunks of a single pair (findings F9, F10).'
+)
+
 RULE_TEXT = (
     "one obligation per arithmetic relation (quotient, multiplier, "
     "comparison operator, conjunction operand) and per guard; polynomial "
